@@ -10,7 +10,7 @@ out=seeded/REGRESSION.txt
 [ $# -eq 0 ] && : > $out
 for id in $ids; do
   prop=$(python3 -c "import json;print(json.load(open('seeded/$id/meta.json'))['property'].split()[0].strip(',;'))")
-  git -C /repo apply seeded/$id/patch.diff || { echo "$id $prop PATCH-DOES-NOT-APPLY" | tee -a $out; continue; }
+  git -C /repo apply /verif/seeded/$id/patch.diff || { echo "$id $prop PATCH-DOES-NOT-APPLY" | tee -a $out; continue; }
   s=$(date +%s)
   res=$(./check $prop --tier quick 2>&1); code=$?
   e=$(date +%s)
